@@ -277,6 +277,15 @@ func TestVX_C09(t *testing.T) {
 			}
 		}
 	}
+	// well-formed integers far outside the register's range read from the PWM / RPM file (a driver glitch), incl. at start-up
+	// and in the first control cycle
+	for _, c := range comps[1:3] {
+		for _, k := range []string{"absurd", "absurd-negative"} {
+			for _, w := range []int{-18, -1, 0, 1, 3} {
+				singles = append(singles, vxFault{Component: c.c, Kind: k, Window: w})
+			}
+		}
+	}
 	var jobs []vxJob
 	ci := 0
 	for _, fk := range []string{"hwmon", "file", "cmd"} {
